@@ -31,4 +31,26 @@ CHECKS = {
         exhaustive_note="every fragment length 1..=2299 (lengths above 2048 exceed every rx buffer and must be dropped); all 64 starting transport sequence values via the running writer sequence",
         assumptions=HARNESS_TRUST,
     ),
+    "C07": dict(
+        level="fault_enumeration",
+        rule=("part A: exhaustive table 256 control bytes x 7 destination classes x 7 source classes x {master,outstation} x self-address on/off x 3 secondary states x {empty,6-byte} payload "
+              "on the real link::layer::Layer, each followed by a link-status probe; part A2: random FCB sequences; part B (when built): application fragments from foreign master/broadcast in each session state. "
+              "distinct = (role, function class, FCV, destination class, source class, self-address, secondary state, payload) tuples"),
+        runs=[dict(check="c07", timeout_s=900)],
+        required=["link_status_answered", "confirmed_delivered", "confirmed_duplicate_suppressed"],
+        thorough_scale=20.0,
+        exhaustive_note="link table: all 256 control bytes x 7 dest x 7 src x roles x self-address x 3 secondary states x 2 payloads enumerated completely on every run",
+        assumptions=HARNESS_TRUST,
+    ),
+    "C12": dict(
+        level="exploration",
+        rule=("scenario = random outstation configuration (tx/rx sizes, decode level, unsolicited on/off, limits) x session state (idle, solicited confirm wait, unsolicited ready, unsolicited confirm wait) "
+              "x 1-6 generated requests (8 classes: acceptable, no-reply functions, every unsupported function code, bad header flags, unparsable objects, header rejected for the function at first/middle/last/only position, unexpected objects); "
+              "rules S1-S5 evaluated on every transmitted fragment; distinct = (state, request class incl. function code and position, deferred/now) tuples in which a rule was evaluated"),
+        runs=[dict(check="c12", timeout_s=900)],
+        required=["S1_seq_ok", "S3_no_reply_ok", "S4_size_ok", "S4_parse_ok", "S5_error_reported", "unsol_fragments_checked", "unsol_seq_consecutive", "series_continuations", "deferred_reads", "state_sol_confirm_wait_reached"],
+        thorough_scale=25.0,
+        abnormal_exit_is_violation=True,
+        assumptions=HARNESS_TRUST,
+    ),
 }
